@@ -9,7 +9,7 @@ ID = "C05"
 TITLE = "Index and point selection return the stored values, complete and in order"
 MC = {"quick": [("MC_Cells", "MC_C05.cfg", 8)], "thorough": [("MC_Cells", "MC_C05.cfg", 16)]}
 TRACE = ("Trace_Cells", "Trace_Cells.cfg")
-REQUIRED = ["SelectIndex", "SelectIndexes", "SelectPoints", "ExtractDF", "repeats", "policy-error", "policy-drop",
+REQUIRED = ["SelectIndex", "SelectIndexes", "SelectPoints", "ExtractDF", "repeats", "only-first-missing", "only-last-missing", "policy-error", "policy-drop",
             "policy-fill", "points-error-raised", "default-dim", "default-dim-collision", "holes", "Mutate", "after-mutation",
             "cf1d", "cf2d", "shoc_simple", "shoc_standard", "arakawa", "ugrid",
             "kind-face", "kind-left", "kind-back", "kind-node", "kind-edge"]
@@ -61,6 +61,15 @@ def cases(tier: str, seed: int) -> list[dict]:
                 ev.append(e)
             for policy in ("error", "drop", "fill"):
                 ev.append({"a": "ExtractDF", "ps": ps, "policy": policy, "dim": pick(["point", "obs"])})
+        # exactly one miss, at the first / at the last position of the request
+        inner = GW.inner_points(w)
+        if inner:
+            some = [rng.choice(inner) for _ in range(rng.randint(1, 3))]
+            for ps in ([GW.far_point(w)] + some, some + [GW.far_point(w)]):
+                for policy in ("error", "drop"):
+                    ev.append({"a": "SelectPoints", "ps": ps, "policy": policy, "dim": pick(["point", "station"])})
+                for policy in ("error", "drop", "fill"):
+                    ev.append({"a": "ExtractDF", "ps": ps, "policy": policy, "dim": pick(["point", "obs"])})
         # the dataset is then modified in place and everything is asked again (same dataset object, same accessor)
         k = len(ev)
         again = [dict(e) for e in ev if rng.random() < 0.5][: (6 if tier == "quick" else 20)]
